@@ -113,6 +113,8 @@ pub enum Event {
     },
     /// the spawned job started running
     JobStart { eval: u64, nth: usize },
+    /// the spawned job ran all its trials (its channel sender is dropped right after)
+    JobEnd { eval: u64, nth: usize },
     /// a trial is about to consult the deadline (schedule point: the callback may sleep here)
     TrialStart {
         eval: u64,
